@@ -162,7 +162,7 @@ def run(ctx):
     # the corpus itself must be accepted
     seeds = [{"id": i, "src": s["src"], "experimental": s["experimental"], "ops": [], "seed": nm, "timeout": 300}
              for i, (nm, s) in enumerate(sorted(diag_seeds.SEEDS.items()))]
-    sres = run_all(seeds)
+    sres = run_all(seeds, chunk=3)
     # A seed that /repo rejects with a proper user error is no longer a well-typed starting point on this
     # tree (not this property's business; noted in the evidence).  A seed that crashes is a finding like
     # any other: its lifecycle goes to TLC with the rest.
